@@ -1,6 +1,7 @@
 package checks
 
 import (
+	"errors"
 	"fmt"
 	"math"
 	"math/big"
@@ -587,6 +588,64 @@ func c15FhirConvAll(r *core.Rec, kind string, v int64) {
 	fhirConvOne[uint16](r, kind, v)
 	fhirConvOne[uint32](r, kind, v)
 	fhirConvOne[uint64](r, kind, v)
+	switch kind {
+	case "integer":
+		c15Named(r, kind, v, fhir.Integer(int32(v)))
+	case "unsignedInt":
+		c15Named(r, kind, v, fhir.UnsignedInt(uint32(v)))
+	case "positiveInt":
+		c15Named(r, kind, v, fhir.PositiveInt(uint32(v)))
+	}
+}
+
+// c15Named: the named wrappers (ToInt8 ... ToUint) and MustConvertToInteger agree with ToInteger[T] on the same element
+func c15Named[F interface {
+	*dtpb.Integer | *dtpb.UnsignedInt | *dtpb.PositiveInt
+}](r *core.Rec, kind string, v int64, e F) {
+	type outcome struct {
+		val string
+		ok  bool
+	}
+	cmp := func(name string, named func() (string, error), generic func() (string, error), must func() string) {
+		var a, b outcome
+		var mustVal string
+		var mustPanicked bool
+		pi := core.Try(func() {
+			x, err := named()
+			a = outcome{x, err == nil}
+			y, err2 := generic()
+			b = outcome{y, err2 == nil}
+			if err != nil && !errors.Is(err, fhirconv.ErrIntegerTruncated) {
+				r.Fail("fhirconv.named|"+kind+"->"+name+"|error-is-not-ErrIntegerTruncated", core.W{"value": v, "err": err.Error()})
+			}
+		})
+		if mp := core.Try(func() { mustVal = must() }); mp != nil {
+			mustPanicked = true
+		}
+		r.Eval()
+		r.State("fhirconv.named|" + kind + "->" + name)
+		if pi != nil {
+			r.Fail("fhirconv.named|"+kind+"->"+name+"|"+pi.Key(), core.W{"value": v})
+			return
+		}
+		if a != b {
+			r.Fail("fhirconv.named|"+kind+"->"+name+"|differs-from-ToInteger", core.W{"value": v, "named": fmt.Sprint(a), "ToInteger": fmt.Sprint(b)})
+		}
+		if mustPanicked == b.ok || b.ok && mustVal != b.val {
+			r.Fail("fhirconv.Must|"+kind+"->"+name+"|panics-iff-error-violated", core.W{"value": v, "panicked": mustPanicked, "ToInteger": fmt.Sprint(b), "must_value": mustVal})
+		}
+	}
+	s := func(x any, err error) (string, error) { return fmt.Sprint(x), err }
+	cmp("int8", func() (string, error) { return s(fhirconv.ToInt8(e)) }, func() (string, error) { return s(fhirconv.ToInteger[int8](e)) }, func() string { return fmt.Sprint(fhirconv.MustConvertToInteger[int8](e)) })
+	cmp("int16", func() (string, error) { return s(fhirconv.ToInt16(e)) }, func() (string, error) { return s(fhirconv.ToInteger[int16](e)) }, func() string { return fmt.Sprint(fhirconv.MustConvertToInteger[int16](e)) })
+	cmp("int32", func() (string, error) { return s(fhirconv.ToInt32(e)) }, func() (string, error) { return s(fhirconv.ToInteger[int32](e)) }, func() string { return fmt.Sprint(fhirconv.MustConvertToInteger[int32](e)) })
+	cmp("int64", func() (string, error) { return s(fhirconv.ToInt64(e)) }, func() (string, error) { return s(fhirconv.ToInteger[int64](e)) }, func() string { return fmt.Sprint(fhirconv.MustConvertToInteger[int64](e)) })
+	cmp("int", func() (string, error) { return s(fhirconv.ToInt(e)) }, func() (string, error) { return s(fhirconv.ToInteger[int](e)) }, func() string { return fmt.Sprint(fhirconv.MustConvertToInteger[int](e)) })
+	cmp("uint8", func() (string, error) { return s(fhirconv.ToUint8(e)) }, func() (string, error) { return s(fhirconv.ToInteger[uint8](e)) }, func() string { return fmt.Sprint(fhirconv.MustConvertToInteger[uint8](e)) })
+	cmp("uint16", func() (string, error) { return s(fhirconv.ToUint16(e)) }, func() (string, error) { return s(fhirconv.ToInteger[uint16](e)) }, func() string { return fmt.Sprint(fhirconv.MustConvertToInteger[uint16](e)) })
+	cmp("uint32", func() (string, error) { return s(fhirconv.ToUint32(e)) }, func() (string, error) { return s(fhirconv.ToInteger[uint32](e)) }, func() string { return fmt.Sprint(fhirconv.MustConvertToInteger[uint32](e)) })
+	cmp("uint64", func() (string, error) { return s(fhirconv.ToUint64(e)) }, func() (string, error) { return s(fhirconv.ToInteger[uint64](e)) }, func() string { return fmt.Sprint(fhirconv.MustConvertToInteger[uint64](e)) })
+	cmp("uint", func() (string, error) { return s(fhirconv.ToUint(e)) }, func() (string, error) { return s(fhirconv.ToInteger[uint](e)) }, func() string { return fmt.Sprint(fhirconv.MustConvertToInteger[uint](e)) })
 }
 
 func decClass(d string) string {
@@ -938,6 +997,80 @@ func c15TemporalProto(r *core.Rec, kind, text, class string) {
 			// parse after format is the identity: same instant, precision, and offset-equivalent zone
 			if !sameTemporalProto(parsed, c.msg) {
 				r.Fail("fhir.Parse|"+c.name+"|"+class+"|parse(format(x))!=x", core.W{"text": jstr, "parsed": fmt.Sprint(parsed), "original": fmt.Sprint(c.msg)})
+			}
+		}
+		// the Go-time view of the element and the constructors from a Go time are inverses: XToTime gives the instant
+		// and the offset the element holds, and the element built from that time holds them again
+		{
+			var tm time.Time
+			var terr error
+			var rebuilt proto.Message
+			var usGot, usWant int64
+			var zoneGot, zoneWant string
+			pi := core.Try(func() {
+				switch m := c.msg.(type) {
+				case *dtpb.Date:
+					tm, terr = fhirconv.DateToTime(m)
+					usWant, zoneWant = m.GetValueUs(), m.GetTimezone()
+					if terr == nil {
+						d := fhir.Date(tm)
+						rebuilt, usGot, zoneGot = d, d.GetValueUs(), d.GetTimezone()
+					}
+				case *dtpb.DateTime:
+					tm, terr = fhirconv.DateTimeToTime(m)
+					usWant, zoneWant = m.GetValueUs(), m.GetTimezone()
+					if terr == nil {
+						d := fhir.DateTime(tm)
+						rebuilt, usGot, zoneGot = d, d.GetValueUs(), d.GetTimezone()
+					}
+				case *dtpb.Instant:
+					tm, terr = fhirconv.InstantToTime(m)
+					usWant, zoneWant = m.GetValueUs(), m.GetTimezone()
+					if terr == nil {
+						d := fhir.Instant(tm)
+						rebuilt, usGot, zoneGot = d, d.GetValueUs(), d.GetTimezone()
+					}
+				case *dtpb.Time:
+					du := fhirconv.TimeToDuration(m)
+					usWant = m.GetValueUs()
+					usGot = du.Microseconds()
+					tod, e := fhir.TimeOfDay(int64(ref.H), int64(ref.Mi), int64(ref.S), ref.Nanos()/1000)
+					if e != nil || tod.GetValueUs() != usWant {
+						r.Fail("fhir-time-helpers|"+c.name+"|"+class+"|TimeOfDay-differs", core.W{"text": text, "TimeOfDay": fmt.Sprint(tod), "err": fmt.Sprint(e), "want_value_us": usWant})
+					}
+					t2 := fhir.Time(time.Date(1999, 7, 4, ref.H, ref.Mi, ref.S, int(ref.Nanos()), time.UTC)) // documented: microseconds since the epoch modulo one day, i.e. the UTC time of day
+					if t2.GetValueUs() != usWant {
+						r.Fail("fhir-time-helpers|"+c.name+"|"+class+"|Time(t)-is-not-the-time-of-day", core.W{"text": text, "Time(t)": fmt.Sprint(t2), "want_value_us": usWant})
+					}
+				}
+			})
+			r.Eval()
+			w := core.W{"text": text, "element": fmt.Sprint(c.msg), "go_time": tm.String(), "rebuilt": fmt.Sprint(rebuilt)}
+			switch {
+			case pi != nil:
+				r.Fail("fhir-time-helpers|"+c.name+"|"+class+"|"+pi.Key(), w)
+			case terr != nil:
+				w["err"] = terr.Error()
+				r.Fail("fhir-time-helpers|"+c.name+"|"+class+"|ToTime-rejects-a-valid-element", w)
+			default:
+				if _, isT := c.msg.(*dtpb.Time); isT {
+					if usGot != usWant {
+						r.Fail("fhir-time-helpers|"+c.name+"|"+class+"|TimeToDuration-differs", core.W{"text": text, "got_us": usGot, "want_us": usWant})
+					}
+				} else {
+					if tm.UnixMicro() != usWant {
+						r.Fail("fhir-time-helpers|"+c.name+"|"+class+"|ToTime-is-another-instant", w)
+					}
+					_, off := tm.Zone()
+					if wm, ok := tzMinutes(zoneWant); ok && off != wm*60 {
+						r.Fail("fhir-time-helpers|"+c.name+"|"+class+"|ToTime-is-in-another-zone", w)
+					}
+					gm, ok1 := tzMinutes(zoneGot)
+					wm, ok2 := tzMinutes(zoneWant)
+					if usGot != usWant || ok1 != ok2 || gm != wm {
+						r.Fail("fhir-time-helpers|"+c.name+"|"+class+"|element-from-time-differs", w)
+					}
+				}
 			}
 		}
 		// System round trip
